@@ -24,6 +24,10 @@ def c10Schema? (j : Json) : Option Schema := do
   let ddb ← c10Names? (← (j.getObjVal? "defaultDB").toOption)
   some { table := table, fields := fields, rels := rels, defaultDB := ddb }
 
+/-- `null` = the statement has no schema -/
+def c10SchemaO? (j : Json) : Option (Option Schema) :=
+  if j.isNull then some none else (c10Schema? j).map some
+
 def c10Pair? (j : Json) : Option (Col × Col) := do
   let a ← jArr? j
   some (← c10Name? (arg a 0), ← c10Name? (arg a 1))
@@ -108,6 +112,32 @@ def handleC10 (op : String) (args : Array Json) : Option Json := do
       | _ => conflictColumns s [star]                                   -- upsert: conflict target
     some (Json.mkObj [("conds", c10NamesJ conds),
       ("rows", Json.arr ((selectRows conds (rowOf key) 0 (rows.map rowOf)).map (fun n => Json.num (JsonNumber.fromNat n))).toArray)])
+  | "c10.saoO" =>
+    let o ← c10SchemaO? (arg args 1)
+    let sel ← c10Names? (arg args 2)
+    let om ← c10Names? (arg args 3)
+    let r := selectAndOmitO o sel om (← jBool? (arg args 4)) (← jBool? (arg args 5))
+    let keys := (r.1.map (·.1)).eraseDups
+    let kv := keys.map fun k => Json.arr #[c10NameJ k, Json.bool ((r.1.lookup k).getD false)]
+    some (Json.mkObj [("r", Json.arr kv.toArray), ("restricted", Json.bool r.2)])
+  | "c10.updmapO" =>
+    let o ← c10SchemaO? (arg args 1)
+    let keys ← (← jArr? (arg args 5)).toList.mapM c10KeyNil?
+    let set := assignmentsOfMapO o (← c10Names? (arg args 2)) (← c10Names? (arg args 3)) (← jBool? (arg args 4)) keys
+    some (Json.arr #[c10NamesJ set, c10NamesJ (modelCondsO o (← c10Names? (arg args 6)))])
+  | "c10.createmapO" =>
+    let o ← c10SchemaO? (arg args 1)
+    let sel ← c10Names? (arg args 2)
+    let om ← c10Names? (arg args 3)
+    let cols := createColumnsMapO o sel om (← c10Names? (arg args 4))
+    let ups := if (← jBool? (arg args 5)) then upsertAssignmentsO o sel om cols else []
+    some (Json.arr #[c10NamesJ cols, c10NamesJ ups])
+  | "c10.createmapsO" =>
+    let o ← c10SchemaO? (arg args 1)
+    some (c10NamesJ (createColumnsMapsO o (← c10Names? (arg args 2)) (← c10Names? (arg args 3)) (← c10Rows? (arg args 4))))
+  | "c10.delcondsO" =>
+    let o ← c10SchemaO? (arg args 1)
+    some (c10NamesJ (deleteCondsO o (← c10Names? (arg args 2)) (← c10Names? (arg args 3)) (← jBool? (arg args 4))))
   | "c10.saverow" =>
     some (Json.bool (saveWritesRow (← jBool? (arg args 1)) (← jBool? (arg args 2)) (← jBool? (arg args 3))))
   | _ => none
